@@ -41,7 +41,8 @@ struct Case {
   uint64_t id;
   int fam;
   int reg;          // stratified sub-regime of the family (0..2)
-  std::string famkey; // family[.regime] as used in violation keys
+  std::string famkey;  // family as used in violation keys
+  std::string regname; // family.regime (text, counters)
   std::string sub;
   double a[3], s[3];
   std::vector< CV > pos;
@@ -75,6 +76,7 @@ struct GridRec {
 static vh::Stats st;
 static bool g_verbose = false;
 static bool g_nofork = false; // debugging aid: run the construction in this process
+static double g_xparam = 0.;  // exploration aid: overrides sigma / amplitude / wall distance
 
 // ---------------------------------------------------------------------------
 // workload
@@ -106,7 +108,8 @@ static void make_case(Case &c, uint64_t id, uint64_t seed, vh::Rng r, uint64_t f
   c.id = id;
   c.fam = forced_fam >= 0 ? forced_fam : (int)((id + seed) % NFAM);
   c.reg = forced_reg >= 0 ? forced_reg % 3 : (int)(((id + seed) / NFAM) % 3);
-  c.famkey = std::string(FAMNAME[c.fam]) + REGNAME[c.fam][c.reg];
+  c.famkey = FAMNAME[c.fam];
+  c.regname = std::string(FAMNAME[c.fam]) + REGNAME[c.fam][c.reg];
   c.param = 0.;
   // ---- box ----
   const double scale = r.chance(0.5) ? 1. : r.loguniform(1e-6, 1e20);
@@ -152,7 +155,8 @@ static void make_case(Case &c, uint64_t id, uint64_t seed, vh::Rng r, uint64_t f
     for (int b = 0; b < nb; ++b) {
       for (int k = 0; k < 3; ++k) cen[b][k] = c.a[k] + c.s[k] * r.uniform(0.05, 0.95);
       static const double slo[3] = {1e-4, 3e-4, 3e-3}, shi[3] = {3e-4, 3e-3, 3e-2};
-      const double sr = (b == 0) ? r.loguniform(slo[c.reg], shi[c.reg]) : r.loguniform(slo[c.reg], 3e-2);
+      double sr = (b == 0) ? r.loguniform(slo[c.reg], shi[c.reg]) : r.loguniform(slo[c.reg], 3e-2);
+      if (g_xparam > 0.) sr = g_xparam;
       smallest = std::min(smallest, sr);
       sig[b] = sr * smin;
     }
@@ -260,7 +264,8 @@ static void make_case(Case &c, uint64_t id, uint64_t seed, vh::Rng r, uint64_t f
       }
     }
     static const double alo[3] = {1e-9, 1e-6, 1e-3}, ahi[3] = {1e-6, 1e-3, 0.4};
-    const double amp = (c.fam == PLATTICE) ? r.loguniform(alo[c.reg], ahi[c.reg]) : 0.;
+    double amp = (c.fam == PLATTICE) ? r.loguniform(alo[c.reg], ahi[c.reg]) : 0.;
+    if (g_xparam > 0. && c.fam == PLATTICE) amp = g_xparam;
     c.param = amp;
     static const double off1[1][3] = {{0.5, 0.5, 0.5}};
     static const double off2[2][3] = {{0.25, 0.25, 0.25}, {0.75, 0.75, 0.75}};
@@ -296,7 +301,8 @@ static void make_case(Case &c, uint64_t id, uint64_t seed, vh::Rng r, uint64_t f
         const int npin = (int)r.range(1, 3);
         for (int q = 0; q < npin; ++q) {
           const int k = (int)r.below(3);
-          const double eps = r.loguniform(1e-12, 1e-9);
+          double eps = r.loguniform(1e-12, 1e-9);
+          if (g_xparam > 0.) eps = g_xparam;
           x[k] = r.chance(0.5) ? c.a[k] + c.s[k] * eps : c.a[k] + c.s[k] * (1. - eps);
         }
       }
@@ -501,11 +507,15 @@ static void run_grid(const Case &c, int ctor, GridRec &g) {
 //  * REL_LEN = 1e-9: the accuracy class the property itself states ("1e-9 relative to
 //    cell size"): every plane / vertex position may be uncertain by 1e-9 * h_i, h_i the
 //    largest generator-vertex distance of the cell.
-//  * conditioning against input rounding: the bisector plane of generators i,j has
-//    normal (x_j-x_i)/d; coordinates are only defined to one quantum q = eps*max(|coord|, L),
-//    so the plane is uncertain by q*h/d at lever arm h.  t_i = 1e-9 h_i + 16 q (1 + h_i/dmin_i),
-//    dmin_i the smallest distance to a face neighbour.  Walls are exact planes: no such term
-//    (a generator 1e-12 from a wall does not make its cell ill conditioned).
+//  * conditioning (c_i): (a) input rounding: the bisector plane of generators j,k has normal
+//    (x_k-x_j)/d; coordinates are only defined to one quantum q = eps*max(|coord|, L), so the
+//    plane is uncertain by q*h/d at lever arm h; (b) a cell vertex is the circumcentre of a
+//    Delaunay tetrahedron; for a needle/sliver with longest edge ~h and shortest edge d the
+//    standard double precision circumcentre formula has forward error ~eps*h*(h/d)^2.
+//    c_i = 16 [ q (1 + h_i/dd_i) + eps h_i (h_i/dd_i)^2 ],  t_i = 1e-9 h_i + c_i,
+//    dd_i = the smallest distance between any two of {generator i and its face neighbours}.
+//    Walls are exact planes and get no such allowance: a generator 1e-12 from a wall does
+//    not make the Voronoi problem ill conditioned.
 //  * a boundary displaced by t changes a face area by <= t * perimeter, a volume by <= t * surface,
 //    a face midpoint by <= t * perimeter * diameter / area, a centroid by <= t * surface * h / volume.
 //  * the old construction documents an absolute vertex tolerance: a vertex v with
@@ -523,21 +533,23 @@ struct Geo {
 };
 
 static std::string gkey(const char *group, int ctor, const std::string &famkey) {
-  return std::string(group) + "/" + CTOR[ctor] + "/" + famkey;
+  return std::string(group) + "/" + (ctor < 2 ? CTOR[ctor] : "old-vs-new") + "/" + famkey;
 }
 
 // at most 2 printed violations per (case, construction, clause); all are counted
 static std::map< std::string, int > g_clause_count;
+static uint64_t g_all_viol = 0; // every violation, printed or not
 #define C15_VIOL(group, ctor, cs, clause, ...)                                                    \
   do {                                                                                             \
     std::string k_ = gkey((group), ctor, (cs).famkey);                                                \
-    const std::string cl_ = (clause);                                                  \
-    st.inc(std::string("violations_") + cl_ + "_" + CTOR[ctor]);                                \
+    const std::string cl_ = (clause);                                                              \
+    ++g_all_viol;                                                  \
+    st.inc(std::string("violations_") + cl_ + "_" + (ctor < 2 ? CTOR[ctor] : "old-vs-new"));                                \
     if (g_clause_count[k_ + "/" + cl_ + "/" + std::to_string((cs).id)]++ < 2) {                 \
       char b_[1400];                                                                               \
       std::snprintf(b_, sizeof b_, __VA_ARGS__);                                                   \
-      VH_VIOL(k_.c_str(), (cs).id, "clause=%s n=%zu %s [%s; sides %.4g %.4g %.4g]", cl_.c_str(),        \
-              (cs).pos.size(), b_, (cs).sub.c_str(), (cs).s[0], (cs).s[1], (cs).s[2]);             \
+      VH_VIOL(k_.c_str(), (cs).id, "clause=%s n=%zu %s [%s: %s; sides %.4g %.4g %.4g]", cl_.c_str(),    \
+              (cs).pos.size(), b_, (cs).regname.c_str(), (cs).sub.c_str(), (cs).s[0], (cs).s[1], (cs).s[2]);              \
     } else st.inc("violations_not_printed");                                                      \
   } while (0)
 
@@ -546,7 +558,9 @@ struct CellGeo {
   LD h;    // largest distance generator -> face vertex
   LD surf; // total face area
   LD dmin; // smallest distance to a face neighbour (real generators only)
-  LD t;    // position tolerance of the cell
+  LD dd;   // smallest distance between any two of {generator, face neighbours}
+  LD cond; // conditioning allowance c_i
+  LD t;    // position tolerance of the cell: 1e-9 h + c_i
   LD slack; // old construction only: largest documented vertex displacement among the planes bounding the cell
 };
 
@@ -623,10 +637,6 @@ static bool eval_grid(const Case &c, const Geo &G, const GridRec &g, int ctor, s
     st.maxd("max_rel_volume_sum_error_" + cn, (double)relsum);
     st.maxd("max_rel_volume_sum_error_" + cn + "_" + FAMNAME[c.fam], (double)relsum);
   }
-  if (!(relsum <= 1e-10L)) {
-    C15_VIOL("tessellation", ctor, c, "volume-sum", "sum of cell volumes %.17Lg vs box volume %.17Lg: rel. diff %.3Lg > 1e-10", vsum, G.vbox, relsum);
-    usable = false;
-  }
   // ---- per cell scales ----
   for (size_t i = 0; i < n; ++i) {
     const CellRec &cl = g.cells[i];
@@ -646,7 +656,38 @@ static bool eval_grid(const Case &c, const Geo &G, const GridRec &g, int ctor, s
         q.slack = std::max(q.slack, old_slack(G, ctor, dist));
       }
     }
-    q.t = REL_LEN * q.h + 16 * G.quantum * (1 + (q.dmin > 0 ? q.h / q.dmin : 0));
+    q.dd = q.dmin;
+    {
+      std::vector< uint32_t > nb;
+      for (size_t f = 0; f < cl.faces.size(); ++f)
+        if (cl.faces[f].ngb < n && cl.faces[f].ngb != i) nb.push_back(cl.faces[f].ngb);
+      for (size_t a = 0; a < nb.size(); ++a)
+        for (size_t b = a + 1; b < nb.size(); ++b) {
+          if (nb[a] == nb[b]) continue;
+          LD d2 = 0;
+          for (int k = 0; k < 3; ++k) { const LD d = G.x[3 * nb[a] + k] - G.x[3 * nb[b] + k]; d2 += d * d; }
+          const LD d = sqrtl(d2);
+          if (q.dd < 0 || d < q.dd) q.dd = d;
+        }
+    }
+    const LD ratio = (q.dd > 0) ? q.h / q.dd : 0;
+    q.cond = 16 * (G.quantum * (1 + ratio) + 2.220446049250313e-16L * q.h * ratio * ratio);
+    q.t = REL_LEN * q.h + q.cond;
+    st.maxd("max_conditioning_allowance_over_cellsize_" + cn, q.h > 0 ? (double)(q.cond / q.h) : 0.);
+    if (q.cond > 0.1L * REL_LEN * q.h) st.inc("cells_with_conditioning_allowance_above_1e-10_cellsize_" + cn);
+  }
+  // ---- partition: the volumes sum to the box volume (1e-10 relative, stated) ----
+  // plus the conditioning allowance of the cells (boundary displaced by c_i -> dV_i <= c_i * S_i)
+  {
+    LD condvol = 0;
+    for (size_t i = 0; i < n; ++i) condvol += cg[i].cond * cg[i].surf;
+    const LD tolrel = 1e-10L + (std::isfinite((double)condvol) ? condvol / G.vbox : 0);
+    st.maxd("max_volume_sum_tolerance_" + cn, (double)tolrel);
+    if (!(relsum <= tolrel)) {
+      C15_VIOL("tessellation", ctor, c, "volume-sum", "sum of cell volumes %.17Lg vs box volume %.17Lg: rel. diff %.3Lg > %.3Lg (1e-10 + conditioning allowance)", vsum,
+               G.vbox, relsum, tolrel);
+      usable = false;
+    }
   }
   // ---- per cell: faces, planes, closure ----
   LD wallarea[6] = {0, 0, 0, 0, 0, 0}, walltol[6] = {0, 0, 0, 0, 0, 0};
@@ -820,14 +861,14 @@ static void compare(const Case &c, const Geo &G, const GridRec &gn, const GridRe
     if (tolv > 0) st.maxd("max_volume_diff_old_new_over_tolerance", (double)(dv / tolv));
     if (vmax > 0) st.maxd("max_rel_volume_diff_old_new", (double)(dv / vmax));
     if (!(dv <= tolv))
-      C15_VIOL("agree", 1, c, "agree-volume", "cell %zu: new volume %.17g, old volume %.17g, rel. diff %.3Lg > tolerance %.3Lg (position tolerance %.3Lg x surface "
+      C15_VIOL("agree", 2, c, "agree-volume", "cell %zu: new volume %.17g, old volume %.17g, rel. diff %.3Lg > tolerance %.3Lg (position tolerance %.3Lg x surface "
                "/ volume; cell size %.3Lg)", i, a.vol, b.vol, dv / vmax, tolv / vmax, t, h);
     LD dc2 = 0;
     for (int k = 0; k < 3; ++k) { const LD d = (LD)a.cen[k] - (LD)b.cen[k]; dc2 += d * d; }
     const LD tolc = (vmax > 0 ? t * surf * h / vmax : 0) + 16 * G.quantum;
     if (tolc > 0) st.maxd("max_centroid_diff_old_new_over_tolerance", (double)(sqrtl(dc2) / tolc));
     if (!(sqrtl(dc2) <= tolc))
-      C15_VIOL("agree", 1, c, "agree-centroid", "cell %zu: centroids differ by %.3Lg (cell size %.3Lg, tolerance %.3Lg): new (%.17g %.17g %.17g) old (%.17g "
+      C15_VIOL("agree", 2, c, "agree-centroid", "cell %zu: centroids differ by %.3Lg (cell size %.3Lg, tolerance %.3Lg): new (%.17g %.17g %.17g) old (%.17g "
                "%.17g %.17g)", i, sqrtl(dc2), h, tolc, a.cen[0], a.cen[1], a.cen[2], b.cen[0], b.cen[1], b.cen[2]);
     // neighbour relation restricted to non-negligible faces (both directions)
     for (int dir = 0; dir < 2; ++dir) {
@@ -844,7 +885,7 @@ static void compare(const Case &c, const Geo &G, const GridRec &gn, const GridRe
         const LD tol = REL_AREA * fr.area + (t + cgo[i].slack) * pm;
         st.inc("faces_compared_old_new");
         if (!((LD)fr.area - ao <= tol))
-          C15_VIOL("agree", 1, c, "agree-neighbours", "cell %zu neighbour %#x: face area %.10g in the %s grid, %.10Lg%s in the %s grid (tolerance %.3Lg; %.3Lg x "
+          C15_VIOL("agree", 2, c, "agree-neighbours", "cell %zu neighbour %#x: face area %.10g in the %s grid, %.10Lg%s in the %s grid (tolerance %.3Lg; %.3Lg x "
                    "box area scale)", i, fr.ngb, fr.area, dir ? "old" : "new", ao, o ? "" : " (no such neighbour)", dir ? "new" : "old", tol,
                    (LD)fr.area / G.ascale);
       }
@@ -865,6 +906,7 @@ int main(int argc, char **argv) {
   const double forced_aspect = vh::arg_f(argc, argv, "--aspect", 0.);
   g_verbose = vh::arg_flag(argc, argv, "--verbose") || only >= 0;
   g_nofork = vh::arg_flag(argc, argv, "--nofork");
+  g_xparam = vh::arg_f(argc, argv, "--xparam", 0.);
   const char *dump = vh::arg_str(argc, argv, "--dump", nullptr);
   vh::g_viol_print_limit = 1000; // printing is limited per (case, clause) instead
   vh::Rng master(seed * 1000003ull + 15);
@@ -878,7 +920,7 @@ int main(int argc, char **argv) {
     const int fam = c.fam;
     st.inc("grids");
     st.inc(std::string("family_") + FAMNAME[fam]);
-    st.inc(std::string("regime_") + c.famkey);
+    st.inc(std::string("regime_") + c.regname);
     st.inc(c.worksize > 1 ? "grids_threaded" : "grids_serial");
     if (n <= 12) st.inc("grids_n_2_to_12");
     else if (n <= 300) st.inc("grids_n_13_to_300");
@@ -914,7 +956,7 @@ int main(int argc, char **argv) {
       std::fclose(f);
     }
     if (g_verbose)
-      std::printf("INFO case=%" PRIu64 " family=%s n=%zu [%s] anchor=(%.6g %.6g %.6g) sides=(%.6g %.6g %.6g) worksize=%d\n", id, c.famkey.c_str(), n, c.sub.c_str(),
+      std::printf("INFO case=%" PRIu64 " family=%s n=%zu [%s] anchor=(%.6g %.6g %.6g) sides=(%.6g %.6g %.6g) worksize=%d\n", id, c.regname.c_str(), n, c.sub.c_str(),
                   c.a[0], c.a[1], c.a[2], c.s[0], c.s[1], c.s[2], c.worksize);
 
     GridRec gr[2];
@@ -948,7 +990,10 @@ int main(int argc, char **argv) {
       }
       st.inc(std::string("grids_built_") + CTOR[ctor] + "_" + FAMNAME[fam]);
       if (c.worksize > 1 && n > 100) st.inc(std::string("grids_built_multijob_threaded_") + CTOR[ctor]);
-      have[ctor] = eval_grid(c, G, g, ctor, cg[ctor]);
+      const uint64_t before = g_all_viol;
+      eval_grid(c, G, g, ctor, cg[ctor]);
+      have[ctor] = (g_all_viol == before); // only valid tessellations are compared with each other
+      if (have[ctor]) st.inc(std::string("grids_valid_") + CTOR[ctor] + "_" + FAMNAME[fam]);
       if (g.status == 2) {
         C15_VIOL("crash", ctor, c, "abort-locate", "get_index died (signal/exit %d) on a position inside the box; stderr: %s", g.sig, g.err.c_str());
       } else eval_locate(c, G, g, ctor);
